@@ -1515,6 +1515,10 @@ func (ctx Ctx) sliceRangeStmt(s *ast.RangeStmt) coq.Expr {
 }
 
 func (ctx Ctx) rangeStmt(s *ast.RangeStmt) coq.Expr {
+	if s.Tok == token.ASSIGN {
+		ctx.unsupported(s, "range assigning to existing variables (use :=)")
+		return nil
+	}
 	switch ctx.typeOf(s.X).Underlying().(type) {
 	case *types.Map:
 		return ctx.mapRangeStmt(s)
